@@ -627,6 +627,37 @@ fn run(ctx: &mut Ctx) {
             }
         }
     });
+    // well-formed chunk lists whose payloads add up to more than the largest PWB packet (81 268 bytes): 2..4 chunks of up
+    // to 65 535 bytes, garbage and a valid packet followed by surplus bytes
+    ctx.cases("oversize-messages", ctx.tier.pick(6, 24), |ctx, i, rng| {
+        let board = *rng.pick(&PWB_BOARDS);
+        let sizes: Vec<usize> = match i % 6 {
+            0 => vec![65_535, 65_535],
+            1 => vec![65_535, 15_734],
+            2 => vec![40_634, 40_634, 1],
+            3 => vec![30_000, 30_000, 30_000],
+            4 => vec![65_535, 65_535, 65_535, 65_535],
+            _ => vec![65_535, 15_733, 1],
+        };
+        let total: usize = sizes.iter().sum();
+        // content: a maximal valid packet first (79 channels x 511 samples), then filler
+        let p = Pwb::new('A', board.1, 511, (1..=79).map(|c| (c, super::c05::samples(rng, 511, i))).collect());
+        let mut content = p.encode();
+        content.resize(total.max(content.len()), 0xCC);
+        let mut list = Vec::new();
+        let mut at = 0;
+        for (k, sz) in sizes.iter().enumerate() {
+            let c = enc::Chunk { device_id: pwb_device_id(&board.1), packet_sequence: 1, channel_sequence: 1, channel_id: 0, flags: (k + 1 == sizes.len()) as u8, chunk_id: k as u16, payload: content[at..(at + sz).min(content.len())].to_vec() };
+            at += sz;
+            if let Some(c) = super::lib_chunk(ctx, &c.encode()) {
+                list.push(c);
+            }
+        }
+        ctx.count("chunk lists with more than 81 268 payload bytes");
+        pwb_chunks(ctx, &list, &(total as u64).to_le_bytes());
+        list.reverse();
+        pwb_chunks(ctx, &list, &(total as u64 + 1).to_le_bytes());
+    });
     // > 65536 chunks with repeated ids, and the maximal 65536-chunk message
     ctx.cases("huge-chunk-lists", ctx.tier.pick(2, 8), |ctx, i, rng| {
         let board = *rng.pick(&PWB_BOARDS);
